@@ -27,11 +27,47 @@ def run(ctx):
     ctx.guard(funnel, ctx)
     ctx.guard(keys, ctx, am)
     ctx.guard(new_rule, ctx, am)
+    ctx.guard(shared, ctx)
     ctx.assume('equality of the hash join with the relational join for all value types (== / hash agreement) is not decided')
     return ('Ordering and once-only rules on ModelLoader.populate; isinstance partition of the statement classes vs the grammar '
             'actions; call-graph funnel of all input routes into ModelLoader.input; sibling agreement of compute_lookup_key / '
             'compute_index_key and their use in populate_connections typed by the association role model; direction rule for '
             'links taken from <metaclass>.links in MetaClass.new.')
+
+
+def shared(ctx):
+    '''a referential attribute formalised by several associations: each association's getter falls back to the property the
+    previous association installed UNDER THE SAME ATTRIBUTE NAME, so the value is found through whichever link exists'''
+    repo = ctx.repo
+    r = ctx.rule('C03-SHARED', 'referential attributes shared by several associations chain to the previously installed property of the same attribute',
+                 floor=4, oracle='property statement (shared referential attributes read the same after load, new and clone)')
+    Q = 'xtuml.meta:Association.formalize'
+    fn = repo.nfunc(Q)
+    n = 0
+    for lp in [x for x in fn.body if isinstance(x, ast.For)]:
+        if pm.match('zip(self.source_keys, self.target_keys)', lp.iter) is None or not isinstance(lp.target, ast.Tuple) or len(lp.target.elts) != 2:
+            continue
+        rk, pk = [e.id if isinstance(e, ast.Name) else None for e in lp.target.elts]
+        for node, env in pm.find('setattr(_C, _K, property(partial(fget, ref_name=_P, alt_prop=_A), __))', lp):
+            n += 1
+            r.check(src(env['_K']) == rk, 'the property is installed under the referential attribute name', node, construct=Q, key='installed-under',
+                    msg='formalize installs the property under %s, not under the referential attribute %s' % (src(env['_K']), rk))
+            m = pm.match('getattr(_C2, _K2, None)', env['_A'])
+            ok = m is not None and src(m['_C2']) == src(env['_C']) and src(m['_K2']) == rk
+            r.check(ok, 'the fallback is the property previously installed under the same referential attribute', node, construct=Q, key='alt-prop',
+                    msg='the fallback property of the getter is %s; it must be what was installed before under the SAME referential attribute '
+                        '(getattr(%s, %s, None)): with a shared referential attribute whose name differs from the identifier, an instance linked '
+                        'only over the earlier association reads None' % (src(env['_A']), src(env['_C']), rk))
+    r.check(n >= 1, 'formalize installs the getter in the loop over the key pairs', fn, construct=Q, key='install-site',
+            msg='formalize no longer installs property(partial(fget, ...)) in a loop over zip(source_keys, target_keys)')
+    inner = {x.name: x for x in fn.body if isinstance(x, ast.FunctionDef)}
+    fget = inner.get('fget')
+    if fget is None:
+        raise AnalysisError('%s: formalize no longer defines fget' % loc(fn))
+    gp = param_names(fget, skip_self=False)
+    ok = any(isinstance(x, ast.Return) and x.value is not None and pm.match('alt_prop.fget(%s)' % gp[0], x.value) is not None for x in ast.walk(fget))
+    r.check(ok, 'the getter falls back to the previously installed getter when the instance is not linked over this association', fget, construct=Q + '.fget',
+            key='fallback', msg='fget no longer returns alt_prop.fget(%s) when this association has no link' % gp[0])
 
 
 def phases(ctx):
